@@ -1162,6 +1162,10 @@ class Network:
 
         # Complete expected response futures
         for expected_response in self._expected_response_futures:
+            if expected_response.done():
+                # Completed or cancelled but not yet removed by its callback
+                continue
+
             if expected_response.matches(connection, message):
                 expected_response.set_result((connection, message, ))
 
